@@ -77,6 +77,7 @@ class Ctx:
         self.extra = {}
         self.caps = []
         self.slowest = (0.0, None)
+        self.nontrivial_n = 0
 
 
 _MOD = None
@@ -149,6 +150,7 @@ def run_check(prop, tier=None, seed=None, only=None):
         ctx.n_eval += r.get("n_eval", 1)
         ctx.n_trans += r.get("n_trans", r.get("n_eval", 1))
         ctx.n_traces += r.get("traces", r.get("n_eval", 1))
+        ctx.nontrivial_n += r.get("nontrivial_n", 0)
         for k in r.get("nontrivial", ()):
             ctx.nontrivial.add(k if isinstance(k, str) else dumps(k))
         for name, h in r.get("hist", {}).items():
@@ -222,7 +224,7 @@ def run_check(prop, tier=None, seed=None, only=None):
         "traces_validated_against_impl": ctx.n_traces,
         "samples": ctx.samples or [states[0] if states else None],
         "evaluations": max(1, ctx.n_eval),
-        "distinct_nontrivial": len(ctx.nontrivial),
+        "distinct_nontrivial": len(ctx.nontrivial) + ctx.nontrivial_n,
         "rule": getattr(mod, "RULE", ""),
         "exhaustive": bool(ctx.extra.pop("exhaustive", getattr(mod, "EXHAUSTIVE", True))) and not ctx.caps,
         "bound_completed": ctx.extra.pop("bound_completed", getattr(mod, "BOUND", "")),
@@ -247,7 +249,7 @@ def run_check(prop, tier=None, seed=None, only=None):
     write_evidence(pid, ev)
     print("[%s] tier=%s seed=%d states=%d transitions=%d evaluations=%d nontrivial=%d "
           "known=%d new=%d wall=%.1fs exhaustive=%s" % (
-              pid, tier, seed, ctx.n_states, ctx.n_trans, ctx.n_eval, len(ctx.nontrivial),
+              pid, tier, seed, ctx.n_states, ctx.n_trans, ctx.n_eval, len(ctx.nontrivial) + ctx.nontrivial_n,
               sum(matched.values()), len(confirmed), wall, cov["exhaustive"]))
     for l in out_lines:
         print(l)
